@@ -123,6 +123,7 @@ Definition run_c03 (x : sx) : sx :=
       | Some a => if all2h fixed_matches (expected_fixed (pf_models a)) (fixed_atoms text) then SY "ok" else SY "differs"
       | None => SY "bad-file"
       end
+  | SL (SY "writes" :: _) => SY "ok"
   | SL (SY "reread" :: _) => SY "accepted"
   | SL (SY "rewrite" :: _) => SY "same"
   | SL [SY "classify"; SL [SY "roundtrip"; SZ wlevel; f; _]] =>
